@@ -1436,7 +1436,17 @@ def run_one(harness, prefix, res, profile=False, witness_every=0, timeout_ms=300
     except Exception as e:  # unexpected exception escaping the code under test / harness
         tb = traceback.extract_tb(e.__traceback__)
         inner = tb[-1].filename if tb else ""
-        if _ours(inner):
+        if isinstance(e, (TypeError, ValueError)) and any(k in str(e) for k in ("vlib.env.Float", "SymReal", "SymInt", "SymBool")):
+            # a C-level library (numpy / pandas) rejected a proxy or the float stand-in: same situation as
+            # Concretized - not decidable symbolically, the witness is replayed on the real build instead
+            try:
+                w = p.witness_inputs()
+            except (Abort, Inconclusive):
+                w = None
+            res.errors.append(dict(kind="Concretized", why="library rejected a proxy: " + str(e)[:200], trace=p.trace[:30],
+                                   witness=w, tb=traceback.format_exc()[-1500:]))
+            inner = None
+        if inner is not None and _ours(inner):
             # raised by our own harness / oracle / engine code: a harness error, never a verdict
             res.errors.append(dict(kind="harness-exception:" + type(e).__name__, why=str(e)[:300], trace=p.trace[:30],
                                    tb=traceback.format_exc()[-1500:]))
